@@ -323,6 +323,9 @@ class SInt:
             E.ENG.stats["concretized"] += 1
             if _branch(self.z == v):
                 return v
+            # this value is excluded on this path: a model that still proposes it is stale
+            if E.ENG.model is not None and z3.is_true(E.ENG.model.eval(self.z == v, model_completion=True)):
+                E.ENG.model = None
         raise Unsupported("symbolic index with too many values")
 
     def __int__(self):
